@@ -369,12 +369,12 @@ static Plan gen_segment(int64_t focus) {
 }
 static int64_t gen_focus(int tier, bool first) {
   (void)tier;
-  int w = *rc::gen::weightedElement<int>({{(size_t)(first ? 10 : 12), 0}, {7, 1}, {(size_t)(first ? 2 : 1), 2}, {1, 3}});
+  int w = *rc::gen::weightedElement<int>({{(size_t)(first ? 20 : 26), 0}, {14, 1}, {(size_t)(first ? 2 : 1), 2}, {2, 3}});
   switch (w) {
   case 0: return 0;
   case 1: return 4096 * *rc::gen::weightedElement<int64_t>({{6, 1}, {2, 2}, {1, 3}, {1, 16}, {1, 17}});
-  case 2: return MIB;
-  default: return *range<int64_t>(5000, MIB + 200000);
+  case 2: return MIB;  // ~5% of first segments: >= 1 MiB streams are the expensive ones (65536 reference blocks)
+  default: return *range<int>(0, 3) ? *range<int64_t>(5000, 70000) : *range<int64_t>(70000, MIB + 200000);
   }
 }
 static rc::Gen<Case> gen_ctr(int tier) {
